@@ -21,41 +21,59 @@ def _load(text):
     return SL.loadConfigFile(io.StringIO(text))
 
 
-def _walk(struct):
-    yield struct
-    for s in struct["sections"]:
-        yield from _walk(s)
+def _neutralised(struct, dollar, slash):
+    """(Section to print, structure its reload should give): the original
+    structure with the features of the two known defects taken out, '$'
+    written as '$$' in values and import names, 'x' appended to section
+    types / names that end in '/'."""
+    import ZConfig.schemaless as SL
+
+    def fix_name(n):
+        if slash and n and n.endswith("/"):
+            return n + "x"
+        return n
+
+    def conv(st, top):
+        sec = SL.Section(fix_name(st["type"]), fix_name(st["name"]))
+        exp = {"type": sec.type, "name": sec.name, "keys": {},
+               "sections": []}
+        for k, vals in st["keys"].items():
+            exp["keys"][k] = list(vals)
+            sec[k] = [v.replace("$", "$$") if dollar else v for v in vals]
+        for sub in st["sections"]:
+            s2, e2 = conv(sub, False)
+            sec.sections.append(s2)
+            exp["sections"].append(e2)
+        if top:
+            exp["imports"] = list(st["imports"])
+            if st["imports"]:
+                sec.imports = tuple(i.replace("$", "$$") if dollar else i
+                                    for i in st["imports"])
+        return sec, exp
+
+    return conv(struct, True)
 
 
-def _has_dollar(struct):
-    for imp in struct.get("imports", ()):
-        if "$" in imp:
-            return True
-    for sec in _walk(struct):
-        for vals in sec["keys"].values():
-            for v in vals:
-                if "$" in v:
-                    return True
-    return False
-
-
-def _has_trailing_slash(struct):
-    for sec in _walk(struct):
-        if sec["type"].endswith("/"):
-            return True
-        if sec["name"] and sec["name"].endswith("/"):
-            return True
-    return False
+def _survives(struct, dollar, slash):
+    sec, exp = _neutralised(struct, dollar, slash)
+    try:
+        t1 = str(sec)
+        top2 = _load(t1)
+        return C3._struct(top2) == exp
+    except Exception:
+        return False
 
 
 def _sig(struct, stage):
-    # triage by what the first structure contains; the corpus is exhaustive
-    # on small texts, so another root cause also shows on a text without
-    # these features and then gets its own signature
-    if _has_dollar(struct):
+    """Label by cause: a known signature is given only when taking that
+    feature out of the structure makes the round trip work."""
+    if _survives(struct, True, True):
+        if _survives(struct, True, False):
+            return "C17:dollar-not-escaped"
+        if _survives(struct, False, True):
+            return "C17:slash-before-gt"
+        # both known causes at once, neither alone: filed under the first
         return "C17:dollar-not-escaped"
-    if _has_trailing_slash(struct):
-        return "C17:slash-before-gt"
     return "C17:roundtrip:" + stage
 
 
@@ -160,7 +178,7 @@ def run(tier, seed):
               "texts of <= 40 lines / depth <= 6): every text of it that the "
               "schema-less loader accepts"
               % (5 if quick else 6, "3-4 lines" if quick else "4 lines",
-                 20000 if quick else 400000),
+                 20000 if quick else 200000),
         rule="an evaluation is one accepted text taken through load, str, "
              "load, str (or one refused-directive check); distinct "
              "non-trivial = distinct accepted texts whose structure has a "
